@@ -29,6 +29,10 @@ def main():
     if args.prop == "setup":
         # build the whole Coq development (full .vo build); used by MANIFEST.setup_cmd
         from .common import make_coq
+        # tie B: regenerate every Gen/*.v from the sources of the tree under test first
+        for name, chk in sorted(all_checks().items()):
+            if getattr(chk, "pre_build", None):
+                print(f"regenerating facts for {name}: {chk.pre_build()}")
         ok, out, secs = make_coq(timeout=3000)
         print(out[-3000:])
         print(f"coq build ok={ok} in {secs:.0f}s")
